@@ -52,7 +52,7 @@ m = {
         {'name': 'h2facts', 'path': 'driver/', 'serves_properties': [c['property_id'] for c in checks],
          'kind_free_text': 'rustc_private driver (nightly) injected as RUSTC_WORKSPACE_WRAPPER: dumps resolved, un-optimised MIR, ADT tables, evaluated constants and an unsafe census of crate h2 as JSON'},
         {'name': 'h2lint', 'path': 'h2lint/', 'serves_properties': [c['property_id'] for c in checks],
-         'kind_free_text': 'Python rule engine over the facts: CFG reachability / edge dominance, disjunctive finite-state dataflow, expression provenance, call-graph summaries, decision-path table extraction, comparison with RFC reference tables'},
+         'kind_free_text': 'Python rule engine over the facts: CFG reachability / edge dominance / control dependence with test outcomes, disjunctive finite-state dataflow, expression provenance, call-graph summaries, finite-domain abstract interpretation (state machine rows, 256-octet flag tables), truth-table extraction of boolean functions, use-chain analysis of returned Results, comparison with RFC reference tables and with reviewed instance tables (rules/*.json); the program is normalised first (jump threading of boolean temporaries, MIR inlining of functions absent from the reviewed tree, equivalent presentations of comparisons) so behaviour-preserving rewrites do not change verdicts'},
     ],
     'checks': checks,
     'notes': 'All checks are static: no h2 code is executed. Exit 0 = every decided clause holds (KNOWN-FINDING lines for recorded defects), 1 = VIOLATION, 2 = no verdict (tree does not compile). '
